@@ -645,7 +645,153 @@ def scenario_unsupported(exe, mode_arg, payload):
     print('no failing input among %d (construct, position, language, output mode) runs + %d accepted const initialisers' % (len(jobs), len(CONST_VALUES)))
 
 
-SCENARIOS = {'runs': scenario_runs, 'config': scenario_config, 'determinism': scenario_determinism, 'robust': scenario_robust, 'unsupported': scenario_unsupported}
+# ------------------------------------------------------------------------------------------------ C14: one module per crate + imports
+MF_A = {
+    'alpha/src/lib.rs': '#[typeshare]\npub struct Item { pub id: u32 }\n#[typeshare]\npub enum Color { Red, Green }\n#[typeshare]\npub type ItemList = Vec<Item>;\n',
+    'alpha/src/more.rs': '#[typeshare]\npub struct Extra { pub item: Item, pub color: Color }\n',
+    'beta-gamma/src/lib.rs': 'use alpha::Item;\nuse alpha::{Color, Extra as Ex};\nuse delta::*;\n#[typeshare]\npub struct Holder { pub item: Item, pub colors: Vec<Color>, '
+                             'pub d: Option<Deep>, pub own: Own, pub q: alpha::ItemList }\n#[typeshare]\npub struct Own { pub a: u32 }\n',
+    'deep/nested/delta/src/sub/mod.rs': 'use beta_gamma::Holder;\nuse std::collections::HashMap;\nuse other_crate::NotShared;\n#[typeshare]\npub struct Deep { pub h: HashMap<String, Holder>, pub n: NotShared }\n'
+                                        '#[typeshare]\npub struct Own2 { pub z: bool }\n'
+                                        '#[typeshare]\n#[serde(tag = "t", content = "c")]\npub enum Choice { B { c: alpha::Color }, C(Own2), D(alpha::Color) }\n',
+    'solo_crate/src/lib.rs': '#[typeshare]\npub struct Lonely { pub a: u32 }\n',
+    'no-types/src/lib.rs': 'pub struct NotAnnotated { pub a: u32 }\n',
+}
+MF_A_TYPES = {'alpha': ['Item', 'Color', 'ItemList', 'Extra'], 'beta_gamma': ['Holder', 'Own'], 'delta': ['Deep', 'Own2', 'Choice'], 'solo_crate': ['Lonely']}
+# (module, type) -> module it must be imported from (the crate the `use` / path names)
+MF_A_USES = {('beta_gamma', 'Item'): 'alpha', ('beta_gamma', 'Color'): 'alpha', ('beta_gamma', 'ItemList'): 'alpha', ('beta_gamma', 'Deep'): 'delta',
+             ('delta', 'Holder'): 'beta_gamma', ('delta', 'Color'): 'alpha'}
+MF_B = {
+    'alpha/src/lib.rs': '#[typeshare]\npub struct Shared { pub a: u32 }\n#[typeshare]\npub struct OnlyAlpha { pub a: u32 }\n',
+    'epsilon/src/lib.rs': '#[typeshare]\npub struct Shared { pub e: String }\n',
+    'zeta/src/lib.rs': 'use epsilon::Shared;\nuse alpha::OnlyAlpha;\n#[typeshare]\npub struct UsesEps { pub s: Shared, pub o: OnlyAlpha }\n',
+}
+MF_B_TYPES = {'alpha': ['Shared', 'OnlyAlpha'], 'epsilon': ['Shared'], 'zeta': ['UsesEps']}
+MF_B_USES = {('zeta', 'Shared'): 'epsilon', ('zeta', 'OnlyAlpha'): 'alpha'}
+# KNOWN FINDING kf-c14-go-cross-crate-payload: see known_findings.json
+MF_KF_GO = {
+    'alpha/src/lib.rs': '#[typeshare]\npub struct Item { pub id: u32 }\n',
+    'delta/src/lib.rs': '#[typeshare]\n#[serde(tag = "t", content = "c")]\npub enum Choice { A(alpha::Item), B }\n',
+}
+MF_LANGS = [('typescript', 'ts', []), ('kotlin', 'kt', ['--java-package', 'com.x']), ('swift', 'swift', []), ('scala', 'scala', ['--scala-package', 'com.x']),
+            ('go', 'go', ['--go-package', 'p']), ('python', 'py', [])]
+MF_DEF = {
+    'typescript': r'export (?:interface|type|enum) %s\b', 'kotlin': r'(?:class|typealias|object|interface) %s\b', 'swift': r'(?:struct|enum|typealias|class) %s\b',
+    'scala': r'(?:class|type|object|trait) %s\b', 'go': r'(?m)^type %s\b', 'python': r'(?m)^(?:class %s\b|%s = )',
+}
+
+
+def mf_file_name(lang, crate, ext):
+    if lang == 'swift':
+        return ''.join(w[:1].upper() + w[1:] for w in crate.split('_')) + '.' + ext
+    return crate + '.' + ext
+
+
+def mf_lines(lang, text):
+    import collections
+    out = []
+    for l in text.splitlines():
+        t = l.strip()
+        if not t or re.match(r'(import |from \S+ import|package |//|/\*|\*|#|"""|Generated by)', t):
+            continue
+        if lang == 'scala' and (re.match(r'type U(Byte|Short|Int|Long) = ', t) or t in ('{', '}')):
+            continue      # the package object with the unsigned aliases is written per module (helpers: C12), not a definition
+        out.append(t)
+    return collections.Counter(out)
+
+
+def mf_imports(lang, text):
+    """-> {(module, name)} named by the import statements of a generated TypeScript / Kotlin module"""
+    out = set()
+    if lang == 'typescript':
+        for m in re.finditer(r'import\s*\{([^}]*)\}\s*from\s*"\./([^"]+)"', text):
+            for n in m.group(1).split(','):
+                if n.strip():
+                    out.add((m.group(2), n.strip()))
+    else:
+        for m in re.finditer(r'(?m)^import com\.x\.(\w+)\.(\w+)\s*$', text):
+            out.add((m.group(1), m.group(2)))
+    return out
+
+
+def multifile_case(exe, corpus, lang, ext, largs):
+    files, types, uses = {'A': (MF_A, MF_A_TYPES, MF_A_USES), 'B': (MF_B, MF_B_TYPES, MF_B_USES), 'kf_go': (MF_KF_GO, {'alpha': ['Item'], 'delta': ['Choice']}, {})}[corpus]
+    top = tempfile.mkdtemp(prefix='clirun-', dir=WORK)
+    try:
+        src = os.path.join(top, 'src')
+        tree(src, files)
+        outd = os.path.join(top, 'out')
+        os.makedirs(outd)
+        rc, out = run(exe, ['--lang', lang] + largs + ['--output-folder', outd, src], cwd=src, timeout=20)
+        if rc != 0:
+            return None if (rc == 'timeout' or 'panicked at' in out) else 'folder-output run failed (rc=%s): %s' % (rc, ' '.join(out.split())[-200:])
+        got = {f: open(os.path.join(outd, f)).read() for f in os.listdir(outd)}
+        want = {mf_file_name(lang, c, ext): c for c in types}
+        extra = sorted(set(got) - set(want) - {'Codable.swift'})
+        missing = sorted(set(want) - set(got))
+        if missing:
+            return 'no module file %s for crate(s) with typeshared types (files written: %s)' % (missing, sorted(got))
+        if extra:
+            return 'unexpected module file(s) %s (a module is named after the directory above `src`, dashes as underscores; crates without typeshared types get none)' % extra
+        for fname, crate in want.items():
+            for c2, names in types.items():
+                for n in names:
+                    defined = re.search(MF_DEF[lang].replace('%s', re.escape(n)), got[fname]) is not None
+                    if c2 == crate and not defined:
+                        return 'type %s of crate %s is not defined in %s' % (n, crate, fname)
+                    if c2 != crate and defined and n not in types[crate]:
+                        return 'type %s of crate %s is defined in %s (the module of crate %s)' % (n, c2, fname, crate)
+        if corpus in ('A', 'kf_go'):
+            single = os.path.join(top, 'single.out')
+            rc2, out2 = run(exe, ['--lang', lang] + largs + ['--output-file', single, src], cwd=src, timeout=20)
+            if rc2 == 0 and os.path.exists(single):
+                import collections
+                a = mf_lines(lang, open(single).read())
+                b = collections.Counter()
+                for t in got.values():
+                    b += mf_lines(lang, t)
+                if a != b:
+                    return 'the definitions differ between single-file and folder output: only single-file %s, only folder %s' % (sorted((a - b).elements())[:3], sorted((b - a).elements())[:3])
+        if lang in ('typescript', 'kotlin'):
+            for fname, crate in want.items():
+                imps = mf_imports(lang, got[fname])
+                for (m, n) in sorted(imps):
+                    if m == crate or m not in types or n not in types[m]:
+                        return '%s imports `%s` from module `%s`, which does not define it' % (fname, n, m)
+                for (c, n), m in uses.items():
+                    if c == crate and (m, n) not in imps:
+                        return '%s uses `%s` of crate %s but does not import it from that module (imports: %s)' % (fname, n, m, sorted(imps))
+        return None
+    finally:
+        shutil.rmtree(top, ignore_errors=True)
+
+
+def scenario_multifile(exe, mode_arg, payload):
+    """C14 bound: two source trees (A: 6 crates - a crate name with a dash, a crate whose sources lie in sub-directories three levels below the
+    root, a crate without typeshared types, 11 types, references through `use a::X`, `use a::{X, Y as Z}`, `use d::*`, qualified paths `a::X` in
+    fields / variant payloads / struct variants, a reference to a type that is not typeshared; B: the same type name defined by two crates and
+    used from a third through `use`; plus the source tree of the recorded Go finding for the five other languages) x 6 languages with --output-folder: exactly one module per crate with typeshared types, named after the
+    directory above `src` (dashes as underscores, Swift in PascalCase); every type defined in its crate's module and in no other; (A) the
+    non-import lines of all modules together equal those of single-file output for the same sources; TypeScript / Kotlin: every import names
+    a type its module defines (never the own module), every cross-crate use is imported from the module of the crate the source names."""
+    if mode_arg == 'check':
+        m = multifile_case(exe, payload['corpus'], payload['lang'], payload['ext'], payload['largs'])
+        if m:
+            witness(payload, m)
+        print('input passes'); return
+    n = 0
+    for corpus in ('A', 'B', 'kf_go'):
+        for (lang, ext, largs) in MF_LANGS:
+            if (corpus, lang) == ('kf_go', 'go'):
+                continue      # the recorded finding (replayed separately on every run)
+            n += 1
+            m = multifile_case(exe, corpus, lang, ext, largs)
+            if m:
+                witness({'corpus': corpus, 'lang': lang, 'ext': ext, 'largs': largs}, m)
+    print('no failing input among %d (source tree, language) folder-output runs' % n)
+
+
+SCENARIOS = {'runs': scenario_runs, 'config': scenario_config, 'determinism': scenario_determinism, 'robust': scenario_robust, 'unsupported': scenario_unsupported, 'multifile': scenario_multifile}
 
 
 def main():
